@@ -138,6 +138,23 @@ def is_false(e):
     return z3.is_false(zsimp(e))
 
 
+def _mentions(t, consts):
+    """does the term mention one of the given constants (bound variables of an enclosing quantifier)?"""
+    ids = {c.get_id() for c in consts}
+    seen, stack = set(), [t]
+    while stack:
+        x = stack.pop()
+        i = x.get_id()
+        if i in seen:
+            continue
+        seen.add(i)
+        if i in ids:
+            return True
+        if z3.is_app(x):
+            stack.extend(x.children())
+    return False
+
+
 class Frame:
     def __init__(self, env=None, parent=None, fn=None):
         self.env = env if env is not None else {}
@@ -208,6 +225,11 @@ class Run:
             b = zsimp(b)
         if z3.is_true(b):
             return
+        bound = getattr(self, "bound_vars", None)
+        if bound and self.pure and _mentions(b, bound):
+            # a library model wants to record a side fact while a quantifier body is being built: the fact would be asserted about ONE
+            # anonymous instance of the bound variable, and any fresh constant it defines would be shared by all instances
+            raise EngineError("side fact about a quantified variable inside a quantifier body (model not usable under forall/exists): %s" % str(b)[:120])
         self.pc.append(b)
         if not has_quant(b):
             self.solver.add(b)
@@ -242,6 +264,16 @@ class Run:
         res = r != z3.unsat
         cache[key] = (res, c, list(self.solver.assertions()))  # keep the ASTs alive so ids stay unique
         return res
+
+    def context_feasible(self):
+        """is the current path condition (with any temporarily pushed spec antecedents) satisfiable?  unknown counts as feasible"""
+        try:
+            s = z3.Solver()
+            s.set("timeout", self.ctx.feas_timeout_ms)
+            s.add(self.solver.assertions())
+            return s.check() != z3.unsat
+        except z3.Z3Exception:
+            return True
 
     def _pc_key(self):
         n = len(self.solver.assertions())
@@ -441,6 +473,25 @@ class Run:
                     return z3.Unit(conv(t.arg(0)))
                 if k == z3.Z3_OP_SEQ_CONCAT:
                     return z3.Concat(*[rec(c) for c in t.children()])
+            bound = getattr(self, "bound_vars", None)
+            if (bound and _mentions(t, bound)) or self.ctx.c.config.get("injseq_fn"):
+                # inside a quantifier body the injected sequence depends on the bound variables: a fresh CONSTANT would be shared by all
+                # instances (found 2026-09-26: it turned `forall k: .. + xs[k]` into a statement about one fixed sequence).  Use one
+                # uninterpreted function per (from, to) type pair, defined for ALL sequences by two quantified facts.
+                fkey = ("coerce_seq_fn", s.t.key(), ty.key())
+                cache = self.ctx.uf_cache
+                if fkey not in cache:
+                    cache[fkey] = z3.Function("injseq_%d" % len(cache), s.t.sort(), ty.sort())
+                f = cache[fkey]
+                if fkey not in self.__dict__.setdefault("_injseq_axioms", set()):
+                    self._injseq_axioms.add(fkey)
+                    sv = z3.Const(fresh_name("sq"), s.t.sort())
+                    kk = z3.Int(fresh_name("k"))
+                    ax1 = z3.ForAll([sv], z3.Length(f(sv)) == z3.Length(sv), patterns=[f(sv)])
+                    ax2 = z3.ForAll([sv, kk], z3.Implies(z3.And(0 <= kk, kk < z3.Length(sv)), f(sv)[kk] == conv(sv[kk])), patterns=[f(sv)[kk]])
+                    self.pc.append(ax1)
+                    self.pc.append(ax2)
+                return f(t)
             key = ("coerce_seq", t.get_id(), ty.key())
             cache = self.ctx.uf_cache
             if key not in cache:
